@@ -6,6 +6,7 @@ rows); the check re-validates them on every run through the model comparison.
 A generated message is a dict:
   raw     : bytes-as-str (CRLF lines, no line starts with a dot)
   p_ok, spam : bool;  hdrs : int (header rows);  shape : "single"|("multi",n)|"nob"|"broken"
+  big     : number of part rows stored out of line (a file name, or more than 1024 octets)
   tokens  : substrings that a faithful FETCH BODY[] must contain
   kind    : template name (coverage)
 """
@@ -31,33 +32,34 @@ def _pad(rng, n):
 
 
 def _leaf(rng, tag, j, big):
-    """-> (headers list, body text, tokens) of one leaf part"""
+    """-> (headers list, body text, tokens, stored out of line?) of one leaf part"""
     tok = "LEAF%s%d" % (tag, j)
     r = rng.random()
     body = "hello " + tok
     if big:
         body += "\r\n" + _pad(rng, rng.choice([1100, 1500, 3000]))
     if r < 0.45:
-        return [("Content-Type", rng.choice(["text/plain", "text/plain; charset=utf-8", "text/html"]))], body + "\r\n", [tok]
+        return [("Content-Type", rng.choice(["text/plain", "text/plain; charset=utf-8", "text/html"]))], body + "\r\n", [tok], big
     if r < 0.6:
-        return [], body + "\r\n", [tok]                      # no Content-Type at all
+        return [], body + "\r\n", [tok], big                 # no Content-Type at all
     if r < 0.75:
         b = base64.b64encode(("payload " + tok + (" " + _pad(rng, 1200) if big else "")).encode()).decode()
         lines = [b[i:i + 76] for i in range(0, len(b), 76)]
         return [("Content-Type", "application/octet-stream"), ("Content-Transfer-Encoding", "base64"),
-                ("Content-Disposition", 'attachment; filename="f%s%d.bin"' % (tag, j))], "\r\n".join(lines) + "\r\n", [lines[0]]
+                ("Content-Disposition", 'attachment; filename="f%s%d.bin"' % (tag, j))], "\r\n".join(lines) + "\r\n", [lines[0]], True
     if r < 0.9:
         return [("Content-Type", "text/plain; charset=iso-8859-1"), ("Content-Transfer-Encoding", "quoted-printable")], \
-            "caf=E9 " + tok + "=\r\n continued\r\n", [tok]
-    return [("Content-Type", "image/png"), ("Content-ID", "<c%s%d@x>" % (tag, j)), ("Content-Transfer-Encoding", "7bit")], body + "\r\n", [tok]
+            "caf=E9 " + tok + "=\r\n continued\r\n", [tok], False
+    return [("Content-Type", "image/png"), ("Content-ID", "<c%s%d@x>" % (tag, j)), ("Content-Transfer-Encoding", "7bit")], body + "\r\n", [tok], big
 
 
 def _multipart(rng, tag, depth, counter, big):
-    """-> (body text of a multipart entity with boundary b, boundary, rows below this container, tokens)"""
+    """-> (body text of a multipart entity with boundary b, boundary, rows below this container, tokens, out-of-line rows)"""
     counter[0] += 1
     b = "b%s%dq" % (tag, counter[0])
     n_kids = rng.randint(1, 3)
     rows = 0
+    nbig = 0
     toks = []
     out = ""
     if rng.random() < 0.3:
@@ -65,18 +67,20 @@ def _multipart(rng, tag, depth, counter, big):
     for _ in range(n_kids):
         out += "--%s\r\n" % b
         if depth < 2 and rng.random() < 0.3:
-            sub, sb, srows, stoks = _multipart(rng, tag, depth + 1, counter, big and rng.random() < 0.3)
+            sub, sb, srows, stoks, sbig = _multipart(rng, tag, depth + 1, counter, big and rng.random() < 0.3)
+            nbig += sbig
             out += "Content-Type: multipart/%s; boundary=\"%s\"\r\n\r\n" % (rng.choice(["alternative", "related", "mixed"]), sb) + sub
             rows += 1 + srows
             toks += stoks
         else:
             counter[0] += 1
-            hs, body, tk = _leaf(rng, tag, counter[0], big and rng.random() < 0.5)
+            hs, body, tk, ool = _leaf(rng, tag, counter[0], big and rng.random() < 0.5)
             out += _hdr_block(hs) + "\r\n" + body
             rows += 1
+            nbig += 1 if ool else 0
             toks += tk
     out += "--%s--\r\n" % b
-    return out, b, rows, toks
+    return out, b, rows, toks, nbig
 
 
 KINDS = ["single", "single", "single_big", "single_noct", "single_badct", "multi", "multi", "multi_big", "multi_quoted_b",
@@ -94,7 +98,7 @@ def gen_message(rng, tag, kind=None):
         hs.append(("Message-ID", "<m%s@example.com>" % tag))
     if rng.random() < 0.3:
         hs.insert(0, ("Received", "from mx by lmtp; Mon, 02 Jan 2006 15:04:05 -0700"))
-    m = {"kind": kind, "p_ok": True, "spam": False, "tokens": [subj]}
+    m = {"kind": kind, "p_ok": True, "spam": False, "tokens": [subj], "big": 0}
     big = False
     if kind in ("single", "single_big", "single_noct", "single_badct", "nofrom", "norcpt", "badheader",
                 "spam_status", "spam_action", "folded"):
@@ -127,14 +131,15 @@ def gen_message(rng, tag, kind=None):
             raw += "this line is not a header\r\n"
             m["p_ok"] = False
         raw += "\r\n" + body
-        m.update(raw=raw, hdrs=len(hs), shape="single")
+        m.update(raw=raw, hdrs=len(hs), shape="single", big=1 if kind == "single_big" else 0)
         m["tokens"].append(tok)
         return m
     hs.append(("MIME-Version", "1.0"))
     sub = rng.choice(["mixed", "alternative", "related", "report"])
     counter = [0]
     if kind in ("multi", "multi_big", "multi_quoted_b", "multi_upper_param"):
-        body, b, rows, toks = _multipart(rng, tag, 0, counter, kind == "multi_big")
+        body, b, rows, toks, nbig = _multipart(rng, tag, 0, counter, kind == "multi_big")
+        m["big"] = nbig
         if kind == "multi_quoted_b":
             # a boundary that needs quoting
             nb = "=_x %s'y" % tag
